@@ -16,6 +16,7 @@ func Shrink(p Prop, v *Violation, budget time.Duration) *Violation {
 	tries := 0
 	test := func(w *World) *Violation {
 		tries++
+		shrinkTick()
 		// candidates must stay inside the domain the generator guarantees
 		if w.Prop != "C06" {
 			if w.Prog != nil && !InDomain(&w.Cfg, w.Prog) {
